@@ -16,8 +16,13 @@ Q = ("quick", "thorough")
 T = ("thorough",)
 
 
-def H(harness, tiers=Q, crate="kani", timeout=1500, kani_flags=LRF, **kw):
-    d = dict(harness=harness, tiers=list(tiers), crate=crate, timeout=timeout, kani_flags=kani_flags)
+# Heap objects are byte arrays for CBMC; with the default limit of 64 they are not
+# field-sensitive and nothing read back from a Box/Arc/Vec is ever constant-folded.
+FS = "--max-field-sensitivity-array-size 2048"
+
+
+def H(harness, tiers=Q, crate="kani", timeout=1500, kani_flags=LRF, cbmc_args=FS, **kw):
+    d = dict(harness=harness, tiers=list(tiers), crate=crate, timeout=timeout, kani_flags=kani_flags, cbmc_args=cbmc_args)
     d.update(kw)
     return d
 
@@ -44,6 +49,12 @@ C05_STEPS = [
     H("c05::proofs::c05_step_deliver", T, timeout=3000, also=["C02"], what="one delivery from any valid state: exactly the signal's actions, in order, one read section per snapshot", bounds="as above"),
     H("c05::proofs::c05_q_history", T, timeout=3000, also=["C02"], what="3 registrations, deliveries, then unregister of any (signal,id)", bounds="symbolic u128 id and signal"),
 ]
+CHAN_LOOPS = ("--max-field-sensitivity-array-size 2048 --unwindset _RNvNtNtCs2jm5Ny5fF8r_11signal_hook9low_level7channel7dequeue.0:5,"
+              "_RNvNtNtCs2jm5Ny5fF8r_11signal_hook9low_level7channel7enqueue.0:5")
+def C08H(name, what):
+    return H("c06::proofs::" + name, Q, timeout=2400, judge_repo_panics=True, judge_repo_unwind=True, also=["C06"], cbmc_args=CHAN_LOOPS,
+             what=what + ": no panic, no waiting (the two CAS loops are bounded to 4 iterations: first attempt + 1 interruption + 1 spurious failure + 1 spare), own steps bounded, tags conserved and ordered",
+             bounds="NEST depth 1, 1 nested operation at any shim point, 1 spurious weak-CAS failure, concrete pre-state; CAS loops bounded by --unwindset (exceeding it is reported as waiting)")
 C09_NEST = [
     H("c09::proofs::c09_nest_delivery_inside_consumer", Q, also=["C10"], timeout=2400,
       what="a complete delivery (real dispatcher + exfiltrating action) nested at every system call / slot access of one consumer iteration (read, drain, scan); next iteration must not sleep with the signal unreported",
@@ -90,18 +101,17 @@ CATALOGUE = {
         H("c06::proofs::c06_seq_send_step", Q, what="one send() from any well-formed channel state (<=2 indices in flight) vs 5-bounded FIFO", bounds="all queue words satisfying the representation invariant; payload u8"),
         H("c06::proofs::c06_seq_recv_step", Q, what="one recv() from any well-formed channel state vs FIFO pop", bounds="as above"),
         H("c06::proofs::c06_new_is_empty", Q, what="Channel::new() is empty and well-formed", bounds="-"),
-        H("c06::proofs::c08_q_nest_recv_two_queued", T, timeout=2400, judge_repo_panics=True, also=["C08"], what="recv() with a complete send/recv nested at any shim point: tag accounting (nested clause of C06)", bounds="NEST depth 1, 1 nested op, 1 spurious failure, concrete pre-state"),
+        C08H("c08_q_send_in_recv", "nested clause of C06: recv() interrupted by a complete send"),
     ],
     "C07": [
         H("c07::proofs::c07_lr_reuse_k3", Q, lr=True, what="consumer takes the only queued value, producer's send reuses that cell: happens-before under declared orderings, drops", bounds="Lal-Reps K=3, 2 threads, <=1 spurious CAS failure"),
         H("c07::proofs::c07_lr_p2_c1_k3", T, lr=True, timeout=3600, what="2 producers (1 send each), 1 consumer (2 recvs): cell races, exactly-once drop, FIFO clauses", bounds="Lal-Reps K=3, 3 threads, <=1 spurious CAS failure"),
     ],
-    "C08": [
-        H("c06::proofs::c08_q_nest_send_two_queued", Q, timeout=2400, judge_repo_panics=True, also=["C06"], what="send() on a channel holding 2 values with one complete send or recv nested at any shim point and one spurious weak-CAS failure: no panic, no waiting, bounded own steps, tags conserved and ordered", bounds="NEST depth 1, 1 nested operation, 1 spurious failure, concrete pre-state"),
-        H("c06::proofs::c08_q_nest_recv_two_queued", Q, timeout=2400, judge_repo_panics=True, also=["C06"], what="recv() likewise", bounds="as above"),
-        H("c06::proofs::c08_q_nest_send_four_queued", Q, timeout=2400, judge_repo_panics=True, also=["C06"], what="send() with 4 values queued (the nested send takes the last slot)", bounds="as above"),
-        H("c06::proofs::c08_q_nest_recv_full", Q, timeout=2400, judge_repo_panics=True, also=["C06"], what="recv() on a full channel with a nested send/recv", bounds="as above"),
-    ],
+    "C08": [C08H("c08_q_send_in_send", "send() interrupted by a complete send (signal handler on the same thread), 2 values queued"),
+            C08H("c08_q_send_in_recv", "recv() interrupted by a complete send, 2 values queued"),
+            C08H("c08_q_send_in_send_last_slot", "send() interrupted by a send that takes the last free slot (4 queued)"),
+            C08H("c08_q_recv_in_recv", "recv() interrupted by a complete recv (second consumer), 2 values queued"),
+            C08H("c08_q_recv_in_send_full", "send() on a full channel interrupted by a recv that frees a slot")],
     "C09": C09_NEST + [H("c09::proofs::c10_seq_counts_signal_only", T, also=["C10"], timeout=2400, what="sequential histories of deliveries and pending() batches", bounds="3 steps")],
     "C10": [H("c09::proofs::c10_seq_counts_signal_only", Q, also=["C09"], timeout=2400, what="histories of deliveries (watched and unwatched signal) and pending() batches: yields <= deliveries, nothing unwatched, nothing reported twice", bounds="3 steps + 2 final batches")] + C09_NEST[:1],
     "C11": C11_NEST,
@@ -130,7 +140,7 @@ CATALOGUE = {
     ],
     "C17": [
         H("proofs::c17_extract_all_bytes", Q, crate="kani17", guard=False,
-          kani_flags="-Z c-ffi --c-lib /repo/src/low_level/extract.c",
+          kani_flags="-Z unstable-options -Z c-ffi --c-lib /repo/src/low_level/extract.c",
           what="Origin::extract (real Rust + real extract.c) on every 128-byte siginfo_t", bounds="all 2^1024 byte patterns; x86-64 Linux layout"),
     ],
     "C18": [
